@@ -524,7 +524,27 @@ func (r *stateRun) apply(op StateOp) {
 			}
 			m2 := m.clone()
 			m2.Refund, m2.Logs = 0, 0
-			r.compare(st2, m2, "reopened-state-differs")
+			// a second view of the same root, opened before the first one is read or written
+			st3, err := state.New(root, r.sdb)
+			if err != nil {
+				r.add("reopen-committed-root-failed", "second state.New(%x) through the same database: %v", root, err)
+				return
+			}
+			if !r.compare(st2, m2, "reopened-state-differs") {
+				return
+			}
+			// the first view diverges and hashes; the second one, which has loaded nothing yet,
+			// must still read the committed content
+			for i := 0; i < nAddrs; i++ {
+				st2.AddBalance(addrOf(i), big.NewInt(int64(11+i)))
+				if m2.Acc[i] != nil {
+					st2.SetState(addrOf(i), slotOf((op.Slot+i)%nSlots), common.BigToHash(big.NewInt(int64(4242+i))))
+				}
+			}
+			st2.IntermediateRoot(r.flag())
+			if !r.compare(st3, m2, "second-view-of-a-root-changed-with-the-first") {
+				return
+			}
 			r.col.Inc("op_commit")
 		}
 	case "copy":
